@@ -258,6 +258,13 @@ func ruleShapeFaults(cfg shapeConfig) ruleFunc {
 			go func() {
 				defer wg.Done()
 				it := NewInterp(p, lim)
+				mu.Lock()
+				for path, note := range it.InitNotes {
+					if note != "evaluated" {
+						c.R.Note("A-init-not-evaluated", ShortKey(path)+": "+note)
+					}
+				}
+				mu.Unlock()
 				if cfg.hostile {
 					it.allocLimit = func(n int64, in ssa.Instruction, s *State) string {
 						limit := int64(4*it.inputLen) + 1<<16
